@@ -353,24 +353,37 @@ func (r *Run) GrowthOracle(expectQuiescent bool) []string {
 				if has {
 					got = fmt.Sprint(cur.Num)
 				}
-				why := ""
-				for k := len(r.Steps) - 1; k >= 0; k-- {
-					if st := r.Steps[k]; w.SamePair(st.Tid, t) {
-						if st.Err != "" && st.Outcome == "OFailed" {
-							e := st.Err
-							if len(e) > 200 {
-								e = e[:200]
-							}
-							why = fmt.Sprintf(" (the task's last step, with no fault injected, failed: %s)", e)
-						}
-						break
-					}
-				}
+				why := r.lastStepNote(t)
 				bad = append(bad, fmt.Sprintf("task %d: after the faults stopped the position is %s, expected %d%s", t.ID, got, want, why))
 			}
 		}
 	}
 	return bad
+}
+
+// lastStepNote: when the last step of t's pair did not end normally, what it ended with
+// (quoted in the "position expected" messages at quiescence, where no fault is injected any more).
+func (r *Run) lastStepNote(t *TaskH) string {
+	for k := len(r.Steps) - 1; k >= 0; k-- {
+		st := r.Steps[k]
+		if !r.W.SamePair(st.Tid, t) {
+			continue
+		}
+		e := st.Err
+		if len(e) > 200 {
+			e = e[:200]
+		}
+		switch st.Outcome {
+		case "OFailed":
+			return fmt.Sprintf(" (the task's last step, with no fault injected, failed: %s)", e)
+		case "OReorgLimit":
+			return fmt.Sprintf(" (the task's last step gave up unwinding and rolled back: %s; every retry starts from the same position)", e)
+		case "OPanicked":
+			return " (the task's last step panicked)"
+		}
+		return ""
+	}
+	return ""
 }
 
 // headAtContact: the head returned by the Latest(0) call of the step that
@@ -426,7 +439,7 @@ func (r *Run) ReorgOracle(forks []ForkMark) []string {
 			if has {
 				got = fmt.Sprint(cur.Num)
 			}
-			bad = append(bad, fmt.Sprintf("task %d: at quiescence the position is %s, expected the final head %d", t.ID, got, want))
+			bad = append(bad, fmt.Sprintf("task %d: at quiescence the position is %s, expected the final head %d%s", t.ID, got, want, r.lastStepNote(t)))
 			continue
 		}
 		if d := r.projectionAt(t, last, final, first); d != "" {
